@@ -9,6 +9,7 @@
 import json
 import pickle
 import random
+import zlib
 
 import common
 import isa
@@ -51,6 +52,28 @@ def snapshot(objs):
     return out
 
 
+def tree_regs(d, acc):
+    """register leaves (name, size) of a dumped tree"""
+    if isinstance(d, (tuple, list)):
+        if len(d) >= 3 and d[0] == "reg" and isinstance(d[1], str):
+            acc[d[1]] = d[2]
+        for c in d:
+            tree_regs(c, acc)
+    return acc
+
+
+def complete(env, d0, d1):
+    """env extended by a fixed value for every register of the trees it does not mention (registers introduced by operations)"""
+    need = tree_regs(d1, tree_regs(d0, {}))
+    miss = [n for n in need if n not in env]
+    if not miss:
+        return env
+    env = dict(env)
+    for n in miss:
+        env[n] = (zlib.crc32(n.encode()) * 0x9E3779B97F4A7C15 >> 7) & X.mask(need[n])
+    return env
+
+
 def compare(snap, envs):
     """[(kind, detail, tree0, tree1)] for watched nodes whose width or value changed"""
     bad = []
@@ -66,6 +89,7 @@ def compare(snap, envs):
         if d1 == d0:
             continue
         for env in envs:
+            env = complete(env, d0, d1)
             try:
                 v0 = X.ref_dump(d0, env)
                 v1 = X.ref_dump(d1, env)
@@ -82,14 +106,14 @@ def compare(snap, envs):
     return bad
 
 
-def apply_ops(cx, e, B, rng):
+def apply_ops(cx, e, B, rng, watch):
     """random operations taking e (or nodes of e) as arguments; returns the list of operation names applied"""
     E = cx.E
     names = []
     regs = list(B.regs.values())
     nodes = reachable(e)
     for _ in range(rng.randrange(1, 4)):
-        k = rng.randrange(12)
+        k = rng.randrange(13)
         sub = rng.choice(nodes)
         try:
             if k == 0:
@@ -168,6 +192,19 @@ def apply_ops(cx, e, B, rng):
                 sub.zeroextend(sub.size + 3).simplify()
                 sub.signextend(sub.size + 5).simplify()
                 names.append("extend")
+            elif k == 11 and sub.size >= 4:
+                # a register written piecewise in a map, read at full width, then written piecewise again:
+                # the value read must not follow the later write
+                m = cx.mapper()
+                r0 = E.reg("dst%d" % rng.randrange(3), sub.size)
+                cut = rng.randrange(1, sub.size - 1)
+                m[r0[0:cut]] = sub[0:cut]
+                got = m[r0] if rng.random() < 0.5 else m(r0)
+                watch.extend(snapshot(reachable(got)))
+                m[r0[0:cut]] = E.cst(rng.getrandbits(cut), cut)
+                if rng.random() < 0.5:
+                    m[r0[cut:sub.size]] = E.cst(0, sub.size - cut)
+                names.append("map-partial-write")
             else:
                 x = (sub == sub)
                 x.simplify()
@@ -210,7 +247,7 @@ def worker(args):
         snap = snapshot(reachable(e))
         signal.alarm(20)
         try:
-            names = apply_ops(cx, e, B, rng)
+            names = apply_ops(cx, e, B, rng, snap)
             bad = compare(snap, envs)
         except CaseTimeout:
             names, bad = ["timeout"], []
@@ -252,6 +289,12 @@ def pickle_part(run, quick):
         try:
             if kind == "simplified":
                 e = e.simplify()
+            if rng.random() < 0.4:
+                # a signed / unsigned view of an inner slice or operation (its flag then differs from its operands')
+                inner = [x for x in reachable(e) if (x._is_slc or x._is_eqn) and x is not e]
+                if inner:
+                    x = rng.choice(inner)
+                    x.sf = not x.sf
             if kind in ("exp", "simplified"):
                 obj = e
             elif kind == "mapper":
